@@ -220,3 +220,20 @@ package service
 //@   requires table-of-functions: has(supportedFunctions, "quantile_over_time") && !supportedFunctions["quantile_over_time"] && has(supportedFunctions, "stddev_over_time") && !supportedFunctions["stddev_over_time"] && has(supportedFunctions, "stdvar_over_time") && !supportedFunctions["stdvar_over_time"]
 //@   loop 1:
 //@     modifies everything
+
+// Reading a stored Zipkin span back: the service name is taken only from a serviceName
+// field of an endpoint, and only while none has been found (the first endpoint that
+// names a service wins; an ipv4 / ipv6 field never becomes the service name), and the
+// attributes of an endpoint are read from that endpoint's own object - never from the
+// span's tags object, which may be absent (a nil dereference here is in the goroutine
+// that streams a trace and has no recover).
+//@ func parseZipkinJSON [C06,C12]
+//@   flag checks=-index,-assert,-slice,-make,-div
+//@   at fastjson.Object).Get$ endpoint-attributes-come-from-the-endpoint-object: recvarg == ep
+//@   loop 1:
+//@     modifies everything
+//@   loop 2:
+//@     modifies everything
+//@     step service-name-only-from-a-service-name-field: serviceName != prev(serviceName) ==> attr == "serviceName" && prev(serviceName) == ""
+//@   loop 3:
+//@     modifies everything
